@@ -62,6 +62,9 @@ def provenance(repo, rule):
         bad, good = [], []
         while frontier:
             e = frontier.pop()
+            if "environ" in norm(e) or "getenv" in norm(e):
+                bad.append(norm(e))     # the environment is only one of the three selection paths
+                continue
             if mentions_backend_name(m, e):
                 good.append(norm(e))
                 continue
@@ -329,8 +332,10 @@ def ggh(repo, rule):
         ok = False
         if loops and norm(loops[0].iter).startswith("enumerate(") and isinstance(loops[0].target, ast.Tuple):
             iv, bv = norm(loops[0].target.elts[0]), norm(loops[0].target.elts[1])
-            txt = norm(loops[0].body)
-            ok = ("%s * SHA512_prng(%s)" % (bv, iv) in txt or "SHA512_prng(%s) * %s" % (iv, bv) in txt) and "% PRIME" in txt
+            from ..flatten import resolve_locals
+            txt = " ; ".join(norm(resolve_locals(fi.node, st)) for st in loops[0].body)
+            ok = ("%s * SHA512_prng(%s)" % (bv, iv) in txt or "SHA512_prng(%s) * %s" % (iv, bv) in txt) and (
+                "% PRIME" in txt or "%= PRIME" in txt)
         if ok:
             rule.ok(fi.loc(), fi.fq, norm(loops[0].body)[:100], "bit i weighted by coefficient i, reduced mod PRIME")
         else:
